@@ -34,11 +34,7 @@ Theorem C12_init_runs : forall cfg h minor ra flags f2 want,
     = (([mk "init" (0, 0, 0) [AN offered]], ReplyOk body), Some minor) /\
   blen body = init_body_len minor /\
   kget "fuse_init_out" "major" O body = 7.
-Proof.
-  intros cfg h minor ra flags f2 want Hf. cbv zeta.
-  split; [exact (init_success_run cfg h minor ra flags f2 want Hf)|].
-  split; [exact (init_success_len cfg minor ra flags f2 want)|exact (init_success_major cfg minor ra flags f2 want)].
-Qed.
+Proof. exact init_runs. Qed.
 
 (* THE INTERSECTION: what the client acts on after reading the reply (Spec/Init.v client_enabled:
    flags2 only together with the marker, only in the 64-byte form) is exactly
@@ -89,18 +85,14 @@ Proof. exact init_success_max_write. Qed.
 Theorem C12_max_write_fails_for_64k_pages :
   max_write_for 4096 BIG_WRITES_BIT = init_max_write BIG_WRITES_BIT /\
   max_write_for 65536 BIG_WRITES_BIT + BUFFER_HEADER_SIZE > MAX_BUFFER_SIZE + BUFFER_HEADER_SIZE.
-Proof. split; [reflexivity|exact max_write_64k_too_big]. Qed.
+Proof. exact max_write_page_sizes. Qed.
 
 (* major mismatch *)
 Theorem C12_major_mismatch : forall cfg h major minor ra flags f2 fr,
   init_fits major minor ra flags f2 = true ->
   (major < 7 -> do_init cfg h (init_req major minor ra flags f2) fr = (([], ReplyErr EPROTO None), None)) /\
   (7 < major -> do_init cfg h (init_req major minor ra flags f2) fr = (([], ReplyOk init_version_only), None)).
-Proof.
-  intros cfg h major minor ra flags f2 fr Hf. split; intro H.
-  - exact (init_major_low cfg h major minor ra flags f2 fr Hf H).
-  - exact (init_major_high cfg h major minor ra flags f2 fr Hf H).
-Qed.
+Proof. exact init_major_mismatch. Qed.
 
 Theorem C12_version_only_reply :
   List.length init_version_only = 64%nat /\
@@ -123,7 +115,7 @@ Theorem C12_flag_constants :
   fsopt "WRITEBACK_CACHE" = F_WRITEBACK_CACHE /\ fsopt "ZERO_MESSAGE_OPEN" = F_ZERO_MESSAGE_OPEN /\
   fsopt "ZERO_MESSAGE_OPENDIR" = F_ZERO_MESSAGE_OPENDIR /\ fsopt "HANDLE_KILLPRIV_V2" = F_HANDLE_KILLPRIV_V2 /\
   fsopt "PERFILE_DAX" = F_PERFILE_DAX /\ fsopt "ATOMIC_O_TRUNC" = F_ATOMIC_O_TRUNC.
-Proof. vm_compute. repeat split; reflexivity. Qed.
+Proof. exact flag_constants_short. Qed.
 
 Theorem C12_vfs_no_open_negotiated : forall s opts bs r s',
   v_initialized s = false -> vfs_init s opts bs = (r, s') ->
@@ -211,14 +203,14 @@ Proof. exact ovl_opts_offered. Qed.
 (* ---- full statements the faithful model refutes (known findings; see notes/C12.md) ---- *)
 
 (* across INIT / DESTROY / INIT the layer switches follow the LAST negotiation *)
-Definition C12_toggles_history_full : Prop := pt_history_full /\ ovl_history_full.
+Definition C12_toggles_history_full : Prop := toggles_history_full.
 Theorem C12_toggles_history_refuted : ~ C12_toggles_history_full.
-Proof. intros [H _]. exact (pt_history_refuted H). Qed.
+Proof. exact toggles_history_refuted. Qed.
 Theorem C12_ovl_toggles_history_refuted : ~ ovl_history_full.
 Proof. exact ovl_history_refuted. Qed.
 Theorem C12_toggles_history_partial : forall c caps,
   toggles_from (pt_run c toggles_off caps) caps /\ toggles_from (ovl_run c toggles_off caps) caps.
-Proof. intros c caps. split; [apply pt_history_partial|apply ovl_history_partial]. Qed.
+Proof. exact toggles_history_partial. Qed.
 
 (* every overlay behaviour is switched on only when negotiated *)
 Definition C12_ovl_behaviour_full : Prop := ovl_behaviour_full.
